@@ -90,6 +90,7 @@ class Recorder:
         self.loaded_runs: list = []             # traces of continued loaded trees
         self.shared = False                     # one problem object shared by all levels: no per-level streams
         self.tree = None                        # set by the runner right after construction
+        self.pending_start = None               # configuration summary of a tree that the library's front end will build
         # C20 "looking at a tree does not change it": in look mode the wrappers never touch the tree except at the
         # loop-head boundaries of the look schedule ("all", or [period, phase]: metaepoch count % period == phase),
         # where every reporting / query accessor is read and its answers are logged
@@ -579,6 +580,12 @@ class RecGSC(GlobalStopCondition):
             v0 = bool(self.inner(tree))
             rec.after_consult(by0, int(tree.metaepoch_count), v0)
             return v0
+        if rec.pending_start is not None:
+            # the tree was built and started inside the library's own front end (hms()): the first thing seen of it is
+            # the consult at the head of run(), nothing has happened since its construction
+            rec.tree = tree
+            start, rec.pending_start = rec.pending_start, None
+            rec.emit({"e": "start", "cfg": start, "snap": rec.snap(tree, full=True)})
         # Who is asking?  A deme (its frame is on the stack) or the tree.  The role of a consult by the tree is decided
         # from where the tree is - not from the name of the calling function, which a refactoring may change:
         #   "step"  the first consult by the tree after a metaepoch has begun (the post-metaepoch consult);
